@@ -72,7 +72,7 @@ def _apply(ps, env, o):
             c = ps.ForceApplyNOptionalConstraints(list_of_optional_constraints=[env["con:" + n] for n in o["cons"]],
                                                   nb_constraints_to_apply=1, **kw)
         elif cls == "WorkLoad":
-            c = ps.WorkLoad(resource=env[o["resource"]], dict_time_intervals_and_bound={(0, 2): 1}, **kw)
+            c = ps.WorkLoad(resource=env[o["resource"]], dict_time_intervals_and_bound={(0, 2): o.get("bound", 1)}, **kw)
         elif cls in ("ResourceUnavailable", "ResourceInterrupted"):
             c = getattr(ps, cls)(resource=env[o["resource"]], list_of_time_intervals=[(1, 2)], **kw)
         elif cls in ("ResourcePeriodicallyUnavailable", "ResourcePeriodicallyInterrupted"):
@@ -103,6 +103,13 @@ def _probe(i):
     with B.silence():
         try:
             for o in _CONTEXTS[rec["ctx"]]:
+                if o.get("bad"):
+                    # an ill-formed creation inside the context: it has to be refused (what it leaves behind shows in the probe)
+                    try:
+                        _apply(ps, env, o)
+                    except Exception:
+                        continue
+                    raise RuntimeError(f"ill-formed context operation accepted: {o}")
                 _apply(ps, env, o)
         except Exception as ex:
             out["context_error"] = f"{type(ex).__name__}: {ex}"
